@@ -2,30 +2,35 @@
 from . import runner
 
 # runs: number of seeded simulated runs; cap_s: wall-clock cap of the exploration
-WORLD = {
-    'quick': {'runs': 24000, 'cap_s': 75, 'batch': 250},
-    'thorough': {'runs': 1200000, 'cap_s': 1200, 'batch': 500},
-}
+
+
+def W(q, t, **kw):
+    return {'quick': dict({'runs': q, 'cap_s': 75, 'batch': 250}, **kw),
+            'thorough': dict({'runs': t, 'cap_s': 1200, 'batch': 500}, **kw)}
+
+
+WORLD = W(24000, 1200000)
 
 PLANS = {}
 for _p in ('C01', 'C02', 'C03', 'C04', 'C05', 'C06', 'C07', 'C08', 'C09',
            'C10', 'C11', 'C18'):
     PLANS[_p] = [('world', WORLD)]
 
+# C12: focused semaphore programs, then the quiescence audit of end-to-end runs
+PLANS['C12'] = [('sem', W(60000, 4000000, batch=1000)),
+                ('world', W(8000, 300000, gen_prop='C04'))]
+
 
 def run(prop, tier, runs=None, cap=None):
     if prop not in PLANS:
         print('HARNESS-ERROR: no check for property %s' % prop)
         return runner.EXIT_HARNESS
-    rc = 0
-    stages = PLANS[prop]
-    if len(stages) == 1:
-        eng, plan = stages[0]
+    stages = []
+    for eng, plan in PLANS[prop]:
         p = dict(plan[tier])
         if runs:
             p['runs'] = runs
         if cap:
             p['cap_s'] = cap
-        return runner.run_check(prop, tier, eng, p)
-    from . import multistage
-    return multistage.run(prop, tier, stages, runs, cap)
+        stages.append((eng, p))
+    return runner.run_check(prop, tier, stages)
